@@ -1,11 +1,11 @@
 package props
 
 import (
-	"time"
 	"context"
 	"fmt"
 	"sort"
 	"strings"
+	"time"
 
 	"google.golang.org/grpc"
 	"google.golang.org/grpc/codes"
@@ -266,7 +266,7 @@ func (s *c04Stats) HandleRPC(ctx context.Context, st stats.RPCStats) {
 	}
 }
 func (s *c04Stats) TagConn(ctx context.Context, _ *stats.ConnTagInfo) context.Context { return ctx }
-func (s *c04Stats) HandleConn(context.Context, stats.ConnStats)                     {}
+func (s *c04Stats) HandleConn(context.Context, stats.ConnStats)                       {}
 
 // splitMD splits md into two halves (SetHeader called twice).
 func splitMD(md metadata.MD) (metadata.MD, metadata.MD) {
